@@ -7,10 +7,11 @@
                   covering set of multi-byte characters in the three name readers of the expression parser)
 <syntactic.json>  what extract_tables.py could read out of the control flow (best effort, may say "unrecognised")
 
-The Lean tables are the probe's.  Where the control flow was recognised it must agree with the probe; a
-disagreement means the behaviour depends on something the probe does not vary, or one of the two readers is
-wrong: it is reported (exit 3, `BYTECLASSES-PROBLEM`).  A construct that was not recognised is only noted: the
-probe does not depend on how the source is written.  Bytes 0xC0, 0xC1, 0xF5..0xFF never occur in a Rust `String`
+The Lean tables are the probe's.  What the extractor read from the source is a cross-check only: a construct it does
+not recognise, or reads differently (a rewritten `match` can be misread), is noted in the evidence and nothing more —
+the probe does not depend on how the source is written, and behaviour that depended on something the probe does not
+vary would show in the correspondence run.  `BYTECLASSES-PROBLEM` (exit 3) is for probe results that are not of the
+expected form (a byte that is neither white space, value start nor one-byte error; a character printed in a fourth way).  Bytes 0xC0, 0xC1, 0xF5..0xFF never occur in a Rust `String`
 and so cannot reach the expression parser; the stop tables list them as non-stopping by convention.
 """
 import json, os, sys
@@ -44,7 +45,7 @@ def main():
         if isinstance(s, dict):
             notes.append(f"{key}: source construct not recognised ({s.get('unrecognised', '?')}); table from the probe only")
         elif sorted(s) != sorted(probe[key]):
-            problems.append(f"{key}: the control flow says {sorted(s)}, running the code says {sorted(probe[key])}")
+            notes.append(f"{key}: the reading of the control flow ({sorted(s)}) differs from what running the code gives ({sorted(probe[key])}); the table is the latter")
     s = syn.get("value_start")
     if isinstance(s, dict):
         notes.append(f"value_start: source construct not recognised ({s.get('unrecognised', '?')}); table from the probe only")
@@ -54,8 +55,38 @@ def main():
             by_reader.setdefault(reader, set()).update(bs)
         for k in KINDS:
             if sorted(by_reader.get(READER_OF[k], [])) != sorted(starts.get(k, [])):
-                problems.append(f"value_start/{k}: the arms calling {READER_OF[k]} match {sorted(by_reader.get(READER_OF[k], []))}, "
-                                f"running the code says {sorted(starts.get(k, []))}")
+                notes.append(f"value_start/{k}: the arms calling {READER_OF[k]} read as {sorted(by_reader.get(READER_OF[k], []))}, "
+                             f"running the code says {sorted(starts.get(k, []))}; the table is the latter")
+    # ---- the printer and the escape reader
+    pr = probe["printer"]
+    esc = sorted((c, l) for c, l in pr["escapes"])
+    def expand(rs):
+        out = set()
+        for a, b in rs:
+            out.update(range(a, b + 1))
+        return out
+    raw_a, raw_u, u4_a, u4_u = expand(pr["raw_ascii"]), expand(pr["raw_utf8"]), expand(pr["u4_ascii"]), expand(pr["u4_utf8"])
+    esc_cps = set(c for c, _ in esc)
+    lo, hi = (min(raw_a), max(raw_a)) if raw_a else (0, 0)
+    bmp = set(c for c in range(0x10000) if not 0xD800 <= c < 0xE000)
+    if raw_a | (esc_cps & set(range(lo, hi + 1))) != set(range(lo, hi + 1)):
+        problems.append(f"printer: the characters written as they are without --utf8-strings are not one range minus the escapes ({pr['raw_ascii']})")
+    if u4_a != bmp - raw_a - esc_cps:
+        problems.append("printer: without --utf8-strings some character is neither plain, nor a two-character escape, nor \\uXXXX")
+    above = hi
+    if raw_u != raw_a | set(c for c in bmp if c > above) - esc_cps or u4_u != bmp - raw_u - esc_cps:
+        problems.append(f"printer: with --utf8-strings the characters written as they are are not the plain range and everything above {above}")
+    if not pr.get("astral_raw_utf8", False):
+        problems.append("printer: with --utf8-strings a character beyond U+FFFF is not written as it is")
+    pe = sorted((b, c) for b, c in probe["parse_escapes"])
+    for key, mine in (("print_escapes", [[c, [92, l]] for c, l in esc]), ("parse_escapes", [[b, c] for b, c in pe]), ("print_ranges", [lo, hi, above])):
+        sv = syn.get(key)
+        if sv is None:
+            continue
+        if isinstance(sv, dict):
+            notes.append(f"{key}: source construct not recognised ({sv.get('unrecognised', '?')}); table from the probe only")
+        elif sorted(map(json.dumps, sv)) != sorted(map(json.dumps, mine)) if key != "print_ranges" else sv != mine:
+            notes.append(f"{key}: the reading of the source ({sv}) differs from what running the code gives ({mine}); the table is the latter")
     hdr = "-- GENERATED by extract/byte_classes.py from `harness probe` (the real code run on every byte) — do not edit.\n"
     lines = [hdr, "namespace Jawk.Generated\n",
              "/-- the bytes skipped between values without any report -/",
@@ -72,6 +103,14 @@ def main():
              f"def fnNameStopBytes : List Nat := {blist(probe['fn_name_stop'])}\n",
              "/-- the bytes that end a bare `.key` -/",
              f"def keyStopBytes : List Nat := {blist(probe['key_stop'])}\n",
+             "/-- JSON `print_string`: (character, text written) for the characters written as backslash + one character -/",
+             "def printEscapeArms : List (Nat × List Nat) := [" + ", ".join(f"({c}, [92, {l}])" for c, l in esc) + "]\n",
+             "/-- `read_string`: (escape letter, character denoted) -/",
+             "def parseEscapeArms : List (Nat × Nat) := [" + ", ".join(f"({b}, {c})" for b, c in pe) + "]\n",
+             "/-- JSON `print_string`: characters in this closed range (escapes apart) are written as they are -/",
+             f"def printPlainRange : Nat × Nat := ({lo}, {hi})\n",
+             "/-- JSON `print_string`: with `utf8_strings`, characters above this one are written as they are -/",
+             f"def printUtf8Above : Nat := {above}\n",
              "end Jawk.Generated\n"]
     content = "\n".join(lines)
     old = open(OUT).read() if os.path.exists(OUT) else None
